@@ -53,6 +53,7 @@ enum Ver {
 enum Op {
     TIn(u64),
     TInSh(u64, u8, u8), // value, m-of-n multisig P2SH coin (redeem script keys 4..4+n in order)
+    TInRaw(u64),        // value, P2SH coin whose redeem script (OP_1) is not a standard template
     TOut(u64, bool), // value, p2sh?
     TNull(usize),
     SSpend(u64),
@@ -93,6 +94,7 @@ struct Req {
     ops: Vec<Op>,
     rule: Rule,
     route: Route,
+    coinbase: bool, // BuildConfig::Coinbase { miner_data: None } instead of Standard
 }
 
 fn ver_s(v: TxVersion) -> String {
@@ -122,6 +124,7 @@ fn op_s(o: &Op) -> String {
     match o {
         Op::TIn(v) => format!("TIn {}", v),
         Op::TInSh(v, m, n) => format!("TInSh {} {} {}", v, m, n),
+        Op::TInRaw(v) => format!("TInRaw {}", v),
         Op::TOut(v, s) => format!("TOut {} {}", v, b(*s)),
         Op::TNull(n) => format!("TNull {}", n),
         Op::SSpend(v) => format!("SSpend {}", v),
@@ -137,7 +140,7 @@ fn op_s(o: &Op) -> String {
 }
 fn req_s(r: &Req) -> String {
     format!(
-        "(mkReq {} {} {} {} {} {} {} {} {} {} {})",
+        "(mkReq {} {} {} {} {} {} {} {} {} {} {} {})",
         if r.net == Network::MainNetwork { "Main" } else { "Test" },
         r.height,
         b(r.sap),
@@ -156,7 +159,8 @@ fn req_s(r: &Req) -> String {
             Route::Build => "Build",
             Route::Pczt => "Pczt",
             Route::Deferred => "Deferred",
-        }
+        },
+        b(r.coinbase)
     )
 }
 
@@ -243,8 +247,8 @@ fn keys() -> Keys {
     let mut signing = TransparentSigningSet::new();
     let mut tsk = vec![];
     let mut tpk = vec![];
-    // keys 0..3: P2PKH coins; keys 4..6: multisig redeem scripts
-    for k in 0..7u8 {
+    // keys 0..3: P2PKH coins; keys 4..18: multisig redeem scripts
+    for k in 0..19u8 {
         let sk = secp256k1::SecretKey::from_slice(&[k + 1; 32]).unwrap();
         tpk.push(signing.add_key(sk));
         tsk.push(sk);
@@ -403,8 +407,8 @@ fn berr_s<FE>(e: &BErr<FE>) -> String {
         BErr::OrchardBuilderNotAvailable => "EOrchardNA".into(),
         BErr::IronwoodBuilderNotAvailable => "EIronwoodNA".into(),
         BErr::AnchorDeferralUnsupported(_) => "EDeferral".into(),
-        BErr::Coinbase(_) => "EOther".into(),
-        BErr::CoinbaseExpiryHeightMismatch { .. } => "EOther".into(),
+        BErr::Coinbase(_) => "ECoinbase".into(),
+        BErr::CoinbaseExpiryHeightMismatch { .. } => "ECoinbaseExpiry".into(),
         BErr::TargetIncompatible(_, v, p) => format!("ETarget {} {}", ver_s(*v), pool_s(*p)),
     }
 }
@@ -443,6 +447,7 @@ struct Built {
     fee_paid: Option<i128>, // None: not available on this route / API returned None; -1: API error
     dec: bool,
     sig: bool,
+    sels: String, // per transparent input, what each signature was made over (Coq list (list sel))
 }
 fn built_s(x: &Built) -> String {
     format!(
@@ -466,6 +471,7 @@ fn built_s(x: &Built) -> String {
 enum CoinKind {
     P2pkh(usize),        // key index
     P2sh(u8, u8, Vec<u8>), // m, n, redeem script bytes
+    Raw(Vec<u8>),          // non-standard redeem script
 }
 
 fn redeem_script(k: &Keys, m: u8, n: u8) -> Vec<u8> {
@@ -481,6 +487,16 @@ fn redeem_script(k: &Keys, m: u8, n: u8) -> Vec<u8> {
 
 /// Splits a script consisting only of pushes into the pushed items (None when anything else occurs).
 fn pushes(sc: &[u8]) -> Option<Vec<Vec<u8>>> {
+    pushes_with(sc, false)
+}
+/// As `pushes`, but also accepts what zcash_script 0.4.3 emits for OP_PUSHDATA1 with a length of
+/// 128..=255: the length written as a two-byte script number (`4c ad 00 ..` instead of `4c ad ..`).
+/// A script interpreter reads that as a 1-byte length, so such a scriptSig is NOT push-only; the
+/// lenient form is only used to look at what the builder meant to put there.
+fn pushes_lenient(sc: &[u8]) -> Option<Vec<Vec<u8>>> {
+    pushes_with(sc, true)
+}
+fn pushes_with(sc: &[u8], lenient: bool) -> Option<Vec<Vec<u8>>> {
     let mut out = vec![];
     let mut i = 0;
     while i < sc.len() {
@@ -492,6 +508,9 @@ fn pushes(sc: &[u8]) -> Option<Vec<Vec<u8>>> {
             76 => {
                 let l = *sc.get(i)? as usize;
                 i += 1;
+                if lenient && l >= 128 && sc.get(i) == Some(&0) && i + 1 + l == sc.len() {
+                    i += 1;
+                }
                 l
             }
             77 => {
@@ -514,7 +533,7 @@ fn pushes(sc: &[u8]) -> Option<Vec<Vec<u8>>> {
 /// produced: a P2PKH scriptSig is charged the ZIP 317 standard size; a multisig P2SH scriptSig is
 /// charged prevout + sequence + its script with every signature taken at its maximum (73 bytes).
 fn charged_size_of_script_sig(ss: &[u8]) -> i128 {
-    match pushes(ss) {
+    match pushes_lenient(ss) {
         Some(items) if items.len() == 2 && items[1].len() == 33 && !items[0].is_empty() => 150,
         Some(items) if items.len() >= 2 && items[0].is_empty() => {
             let nsig = items.len() - 2;
@@ -560,9 +579,159 @@ impl zcash_primitives::transaction::Authorization for HUn {
     type OrchardAuth = orchard::bundle::Authorized;
 }
 
+fn script_id(k: &Keys, asked: &Asked, sc: &[u8]) -> String {
+    for (_, coin, kind) in &asked.coins {
+        if coin.script_pubkey().0 .0 == sc {
+            return match kind {
+                CoinKind::P2pkh(ki) => format!("(SPubKeyHash {})", ki),
+                CoinKind::P2sh(m, n, _) => format!("(SScriptHash {} {})", m, n),
+                CoinKind::Raw(_) => "(SScriptHash 0 0)".to_string(),
+            };
+        }
+        if let CoinKind::P2sh(m, n, rs) = kind {
+            if rs == sc {
+                return format!("(SRedeem {} {})", m, n);
+            }
+        }
+    }
+    let _ = k;
+    "(SPubKeyHash (-1))".into()
+}
+
+/// For every transparent input and every signature in its scriptSig: the key under which the
+/// signature verifies and the selector (index, value, script code, scriptPubKey) of the
+/// `signature_hash` it verifies for. The expected selector is tried first; when it does not verify,
+/// all (index, coin, script code) combinations of the request are searched, so a signature made
+/// over the wrong input / value / script is reported as what it is.
+fn observe_sels(tx: &Transaction, asked: &Asked, k: &Keys, budget: &std::cell::Cell<u32>) -> String {
+    let data: TransactionData<zcash_primitives::transaction::Authorized> = tx.clone().into_data();
+    let nin = data.transparent_bundle().map_or(0, |b| b.vin.len());
+    if nin == 0 || nin != asked.coins.len() {
+        return "[]".into();
+    }
+    let v5 = matches!(tx.version(), TxVersion::V5 | TxVersion::V6);
+    let amounts: Vec<Zatoshis> = asked.coins.iter().map(|c| c.1.value()).collect();
+    let scripts: Vec<Script> = asked.coins.iter().map(|c| c.1.script_pubkey().clone()).collect();
+    let hd: TransactionData<HUn> = data.map_bundles(
+        |t| {
+            t.map(|bd| transparent::bundle::Bundle {
+                vin: bd
+                    .vin
+                    .iter()
+                    .map(|i| TxIn::from_parts(i.prevout().clone(), i.script_sig().clone(), i.sequence()))
+                    .collect(),
+                vout: bd.vout.clone(),
+                authorization: HAuth { amounts: amounts.clone(), scripts: scripts.clone() },
+            })
+        },
+        |s| s,
+        |o| o,
+    );
+    let parts = hd.digest(TxIdDigester);
+    let secp = secp256k1::Secp256k1::verification_only();
+    let bundle = hd.transparent_bundle().unwrap();
+    // all script codes that occur in the request
+    let mut codes: Vec<Vec<u8>> = vec![];
+    for (_, coin, kind) in &asked.coins {
+        codes.push(coin.script_pubkey().0 .0.clone());
+        if let CoinKind::P2sh(_, _, rs) | CoinKind::Raw(rs) = kind {
+            codes.push(rs.clone());
+        }
+    }
+    codes.sort();
+    codes.dedup();
+    let msg_for = |j: usize, kc: usize, code: &[u8]| -> Option<secp256k1::Message> {
+        let coin = &asked.coins[kc].1;
+        let code = Script(zcash_script::script::Code(code.to_vec()));
+        let si = SignableInput::from_parts(bundle, SighashType::ALL, j, &code, coin.script_pubkey(), coin.value()).ok()?;
+        let h = signature_hash(&hd, &zcash_primitives::transaction::sighash::SignableInput::Transparent(si), &parts);
+        Some(secp256k1::Message::from_digest(*h.as_ref()))
+    };
+    let sel_s = |key: i64, j: i64, kc: Option<usize>, code: &[u8], ty: u8| -> String {
+        let (val, spk) = match kc {
+            Some(c) => (
+                u64::from(asked.coins[c].1.value()) as i128,
+                if v5 { format!("(Some {})", script_id(k, asked, &asked.coins[c].1.script_pubkey().0 .0)) } else { "None".to_string() },
+            ),
+            None => (-1, "None".to_string()),
+        };
+        format!("(mkSel {} {} {} {} {} {})", z(key as i128), z(j as i128), z(val), script_id(k, asked, code), spk, ty)
+    };
+    let mut out: Vec<String> = vec![];
+    for (i, vin) in bundle.vin.iter().enumerate() {
+        let kind = &asked.coins[i].2;
+        let items = pushes_lenient(&vin.script_sig().0 .0).unwrap_or_default();
+        let (sigs, cand_keys, exp_code): (Vec<Vec<u8>>, Vec<usize>, Vec<u8>) = match kind {
+            CoinKind::P2pkh(_) => {
+                if items.len() != 2 {
+                    out.push("[]".into());
+                    continue;
+                }
+                let ki = k.tpk.iter().position(|p| p.serialize().to_vec() == items[1]);
+                (vec![items[0].clone()], ki.into_iter().collect(), asked.coins[i].1.script_pubkey().0 .0.clone())
+            }
+            CoinKind::P2sh(_, n, rs) => {
+                if items.len() < 2 {
+                    out.push("[]".into());
+                    continue;
+                }
+                (items[1..items.len() - 1].to_vec(), (4..4 + *n as usize).collect(), rs.clone())
+            }
+            CoinKind::Raw(_) => {
+                out.push("[]".into());
+                continue;
+            }
+        };
+        let mut sels: Vec<String> = vec![];
+        for sg in &sigs {
+            if sg.is_empty() {
+                sels.push(sel_s(-1, -1, None, &exp_code, 0));
+                continue;
+            }
+            let ty = sg[sg.len() - 1];
+            let parsed = secp256k1::ecdsa::Signature::from_der(&sg[..sg.len() - 1]).ok();
+            let verify_any = |msg: &secp256k1::Message| -> Option<usize> {
+                let sgn = parsed.as_ref()?;
+                cand_keys.iter().copied().find(|ki| secp.verify_ecdsa(msg, sgn, &k.tpk[*ki]).is_ok())
+            };
+            // expected selector first
+            let mut found: Option<(usize, usize, usize, Vec<u8>)> = None;
+            if let Some(m) = msg_for(i, i, &exp_code) {
+                if let Some(ki) = verify_any(&m) {
+                    found = Some((ki, i, i, exp_code.clone()));
+                }
+            }
+            if found.is_none() && budget.get() > 0 {
+                budget.set(budget.get() - 1);
+                'search: for j in 0..nin {
+                    for kc in 0..nin {
+                        for code in &codes {
+                            if let Some(m) = msg_for(j, kc, code) {
+                                if let Some(ki) = verify_any(&m) {
+                                    found = Some((ki, j, kc, code.clone()));
+                                    break 'search;
+                                }
+                            }
+                        }
+                    }
+                }
+            }
+            match found {
+                Some((ki, j, kc, code)) => sels.push(sel_s(ki as i64, j as i64, Some(kc), &code, ty)),
+                None => sels.push(sel_s(-1, -1, None, &exp_code, ty)),
+            }
+        }
+        out.push(list(sels));
+    }
+    list(out)
+}
+
 /// Verify every transparent input's scriptSig signature under the sighash for *its* index and
 /// the requested coin at that position.
 fn check_sigs(tx: &Transaction, asked: &Asked, k: &Keys) -> bool {
+    if tx.transparent_bundle().is_some_and(|b| b.is_coinbase()) {
+        return asked.coins.is_empty(); // the single null input carries no signature
+    }
     let data: TransactionData<zcash_primitives::transaction::Authorized> = tx.clone().into_data();
     let nin = data.transparent_bundle().map_or(0, |b| b.vin.len());
     if nin != asked.coins.len() {
@@ -634,6 +803,7 @@ fn check_sigs(tx: &Transaction, asked: &Asked, k: &Keys) -> bool {
                     return false;
                 }
             }
+            CoinKind::Raw(_) => return false,
             CoinKind::P2sh(m, n, redeem) => {
                 // OP_0 <sig>*m <redeem script>; evaluated as OP_CHECKMULTISIG does: signatures and
                 // the redeem script's public keys are consumed in lock step, in order.
@@ -826,9 +996,14 @@ fn finish_pczt(
                             }
                             None => matches!(ver, TxVersion::Sprout(_) | TxVersion::V3),
                         };
-    Res::Ok(Built { ver, branch, expiry, lock, tin, tout, sap, orc, iw, fee_paid: None, dec, sig: hdr_ok })
+    Res::Ok(Built { ver, branch, expiry, lock, tin, tout, sap, orc, iw, fee_paid: None, dec, sig: hdr_ok, sels: "[]".into() })
 }
 
+
+thread_local! {
+    // number of failing signatures for which the full selector search is run (it is slow)
+    static SEARCH_BUDGET: std::rc::Rc<std::cell::Cell<u32>> = std::rc::Rc::new(std::cell::Cell::new(40));
+}
 
 enum Res {
     Ok(Built),
@@ -957,12 +1132,16 @@ fn run(req: &Req, k: &Keys, r: &mut Rng) -> (Option<Seen>, Res) {
     onotes.reverse();
     inotes.reverse();
 
-    let cfg = BuildConfig::Standard {
-        sapling_anchor: if req.sap { Some(sanchor) } else { None },
-        orchard_anchor: if req.orc { Some(oanchor) } else { None },
-        ironwood_anchor: if req.iw { Some(ianchor) } else { None },
-        orchard_padding: BundlePadding { bundle_required: req.opad.0, pad_to_minimum: req.opad.1 },
-        ironwood_padding: BundlePadding { bundle_required: req.ipad.0, pad_to_minimum: req.ipad.1 },
+    let cfg = if req.coinbase {
+        BuildConfig::Coinbase { miner_data: None }
+    } else {
+        BuildConfig::Standard {
+            sapling_anchor: if req.sap { Some(sanchor) } else { None },
+            orchard_anchor: if req.orc { Some(oanchor) } else { None },
+            ironwood_anchor: if req.iw { Some(ianchor) } else { None },
+            orchard_padding: BundlePadding { bundle_required: req.opad.0, pad_to_minimum: req.opad.1 },
+            ironwood_padding: BundlePadding { bundle_required: req.ipad.0, pad_to_minimum: req.ipad.1 },
+        }
     };
     let case_tag = r.bytes(32);
     let brng = ChaCha8Rng::seed_from_u64(r.u64());
@@ -1013,6 +1192,23 @@ fn run(req: &Req, k: &Keys, r: &mut Rng) -> (Option<Seen>, Res) {
                     );
                     nti += 1;
                     asked.coins.push((op.clone(), coin.clone(), CoinKind::P2sh(*m, *n, rs.clone())));
+                    match zcash_script::script::FromChain::parse(&zcash_script::script::Code(rs)) {
+                        Ok(fc) => bld.add_transparent_p2sh_input(fc, op, coin).map_err(|_| "ETransparentBuild".to_string()),
+                        Err(_) => Err("EOther".to_string()),
+                    }
+                }
+                Op::TInRaw(v) => {
+                    let rs = vec![0x51u8];
+                    let mut h = [0u8; 32];
+                    h.copy_from_slice(&case_tag);
+                    h[0] = nti as u8;
+                    let op = OutPoint::new(h, nti as u32);
+                    let coin = TxOut::new(
+                        Zatoshis::from_u64(*v).unwrap(),
+                        TransparentAddress::ScriptHash(transparent::util::hash160::hash(&rs)).script().into(),
+                    );
+                    nti += 1;
+                    asked.coins.push((op.clone(), coin.clone(), CoinKind::Raw(rs.clone())));
                     match zcash_script::script::FromChain::parse(&zcash_script::script::Code(rs)) {
                         Ok(fc) => bld.add_transparent_p2sh_input(fc, op, coin).map_err(|_| "ETransparentBuild".to_string()),
                         Err(_) => Err("EOther".to_string()),
@@ -1154,12 +1350,13 @@ fn run(req: &Req, k: &Keys, r: &mut Rng) -> (Option<Seen>, Res) {
                 && check_orchard_dec(tx.orchard_bundle(), res.orchard_meta(), &asked.orc_outs, k)
                 && check_orchard_dec(tx.ironwood_bundle(), res.ironwood_meta(), &iw_outs4, k);
             let sig = check_sigs(tx, &asked, k);
+            let sels = observe_sels(tx, &asked, k, &SEARCH_BUDGET.with(|b| b.clone()));
             Res::Ok(Built {
                 ver: tx.version(),
                 branch: u32::from(tx.consensus_branch_id()),
                 expiry: u32::from(tx.expiry_height()),
                 lock: tx.lock_time(),
-                tin: tx.transparent_bundle().map_or(vec![], |bd| {
+                tin: tx.transparent_bundle().filter(|bd| !bd.is_coinbase()).map_or(vec![], |bd| {
                     bd.vin
                         .iter()
                         .map(|i| {
@@ -1176,6 +1373,7 @@ fn run(req: &Req, k: &Keys, r: &mut Rng) -> (Option<Seen>, Res) {
                 fee_paid,
                 dec,
                 sig,
+                sels,
             })
         };
 
@@ -1236,7 +1434,11 @@ fn emit(req: &Req, k: &Keys, r: &mut Rng, stats: &mut BTreeMap<String, u64>) -> 
         }
     };
     *stats.entry(format!("route:{:?}", req.route)).or_default() += 1;
-    case(format!("Case {} {} {}", req_s(req), seen_s(&seen), o));
+    let sels = match &res {
+        Res::Ok(x) => x.sels.clone(),
+        _ => "[]".to_string(),
+    };
+    case(format!("Case {} {} {} {}", req_s(req), seen_s(&seen), sels, o));
     (seen, res)
 }
 
@@ -1272,7 +1474,7 @@ fn has_orchard_ops(req: &Req) -> bool {
 }
 /// A successful build on a transaction route would create a real Orchard proof.
 fn may_prove(req: &Req) -> bool {
-    req.route != Route::Pczt && req.route != Route::Deferred && (has_orchard_ops(req) || (req.orc && req.opad.0) || (req.iw && req.ipad.0))
+    req.route != Route::Pczt && req.route != Route::Deferred && !req.coinbase && (has_orchard_ops(req) || (req.orc && req.opad.0) || (req.iw && req.ipad.0))
 }
 
 fn value(r: &mut Rng) -> u64 {
@@ -1340,8 +1542,12 @@ fn gen_req(r: &mut Rng) -> Req {
     if r.chance(3, 5) {
         for _ in 0..r.below(4) {
             if r.chance(1, 4) {
-                let (m, n) = *r.pick(&[(1u8, 1u8), (2, 2), (2, 3), (1, 2), (3, 3), (1, 3)]);
-                ops.push(Op::TInSh(val(r), m, n));
+                if r.chance(1, 6) {
+                    ops.push(Op::TInRaw(val(r)));
+                } else {
+                    let (m, n) = *r.pick(&[(1u8, 1u8), (2, 2), (2, 3), (1, 2), (3, 3), (1, 3), (3, 5), (2, 7), (7, 7), (8, 9), (1, 15), (14, 15)]);
+                    ops.push(Op::TInSh(val(r), m, n));
+                }
             } else {
                 ops.push(Op::TIn(val(r)));
             }
@@ -1415,21 +1621,54 @@ fn gen_req(r: &mut Rng) -> Req {
         (_, 0..=5, _) | (_, 6..=8, true) => Route::Build,
         _ => Route::Pczt,
     };
-    let keys: Vec<u8> = r
-        .pick(&[vec![4u8, 5, 6], vec![4, 5, 6], vec![6, 5, 4], vec![5, 6, 4], vec![5, 4], vec![4, 6], vec![6], vec![]])
-        .clone();
-    Req { net, height, sap, orc, iw, opad, ipad, keys, ops, rule, route }
+    let keys: Vec<u8> = match r.below(8) {
+        0..=2 => (4..19).collect(),
+        3 => (4..19).rev().collect(),
+        4 => {
+            let mut v: Vec<u8> = (4..19).collect();
+            for i in (1..v.len()).rev() {
+                let j = r.below(i as u64 + 1) as usize;
+                v.swap(i, j);
+            }
+            v.truncate(r.range(0, 15) as usize);
+            v
+        }
+        5 => vec![6, 5, 4],
+        6 => vec![4, 6],
+        _ => vec![],
+    };
+    // a coinbase transaction: no inputs, no change, no fee; the request is made on a transaction route
+    let coinbase = r.chance(1, 14);
+    let mut ops = ops;
+    let mut route = route;
+    if coinbase {
+        let keep_orchard_outputs = ops.iter().any(|o| matches!(o, Op::TIn(_) | Op::TInSh(..) | Op::TInRaw(_)));
+        ops.retain(|o| match o {
+            // a successful build with Orchard-family outputs would create a real proof
+            Op::OOut(_) | Op::OChange(_) | Op::IOut(_) => keep_orchard_outputs,
+            Op::TIn(_) | Op::TInSh(..) | Op::TInRaw(_) | Op::SSpend(_) | Op::OSpend(_) | Op::ISpend(..) => true,
+            _ => true,
+        });
+        if !r.chance(1, 5) {
+            // mostly valid: only outputs
+            ops.retain(|o| !matches!(o, Op::TIn(_) | Op::TInSh(..) | Op::TInRaw(_) | Op::SSpend(_) | Op::OSpend(_) | Op::ISpend(..) | Op::OOut(_) | Op::OChange(_) | Op::IOut(_)));
+        }
+        if route == Route::Pczt {
+            route = Route::Build;
+        }
+    }
+    Req { net, height, sap, orc, iw, opad, ipad, keys, ops, rule, route, coinbase }
 }
 
 /// Model-free balancing: use the amount the builder itself reports.
 fn adjust(req: &Req, amount: i128, insufficient: bool, r: &mut Rng) -> Option<Req> {
     let mut q = req.clone();
     let amt = amount as u64;
-    let is_in = |o: &Op| matches!(o, Op::TIn(_) | Op::TInSh(..) | Op::SSpend(_) | Op::OSpend(_) | Op::ISpend(..));
+    let is_in = |o: &Op| matches!(o, Op::TIn(_) | Op::TInSh(..) | Op::TInRaw(_) | Op::SSpend(_) | Op::OSpend(_) | Op::ISpend(..));
     let is_out = |o: &Op| matches!(o, Op::TOut(..) | Op::SOut(_) | Op::OOut(_) | Op::OChange(_) | Op::IOut(_));
     let bump = |o: &mut Op, d: i128| -> bool {
         let v: &mut u64 = match o {
-            Op::TIn(v) | Op::TInSh(v, _, _) | Op::SSpend(v) | Op::OSpend(v) | Op::ISpend(v, _) | Op::TOut(v, _) | Op::SOut(v) | Op::OOut(v)
+            Op::TIn(v) | Op::TInSh(v, _, _) | Op::TInRaw(v) | Op::SSpend(v) | Op::OSpend(v) | Op::ISpend(v, _) | Op::TOut(v, _) | Op::SOut(v) | Op::OOut(v)
             | Op::OChange(v) | Op::IOut(v) => v,
             _ => return false,
         };
@@ -1548,6 +1787,7 @@ fn lattice_version(k: &Keys, r: &mut Rng, stats: &mut BTreeMap<String, u64>) {
                         // the tx routes stay unbalanced (one zatoshi short): no proving, gate still observable
                         rule: Rule::Lin([if route == Route::Pczt { 0 } else { 1 }, 0, 0, 0, 0, 0, 0]),
                         route,
+                        coinbase: false,
                     };
                     emit(&req, k, r, stats);
                 }
@@ -1598,6 +1838,7 @@ fn lattice_padding(k: &Keys, r: &mut Rng, stats: &mut BTreeMap<String, u64>) {
                                 ops,
                                 rule: Rule::Lin([0, 1, 1, 0, 0, 0, 0]),
                                 route: Route::Pczt,
+                                coinbase: false,
                             };
                             emit(&req, k, r, stats);
                         }
@@ -1623,6 +1864,7 @@ fn witnesses(k: &Keys, r: &mut Rng, stats: &mut BTreeMap<String, u64>, slow: boo
         ops: vec![Op::Propose(Ver::V5), Op::TIn(1998)],
         rule: Rule::Lin([0, 0, 0, 0, 0, 0, 999]),
         route: Route::Pczt,
+        coinbase: false,
     };
     // required-but-unused Ironwood bundle under a proposed V5 (PCZT route)
     emit(&base, k, r, stats);
@@ -1649,6 +1891,7 @@ fn witnesses(k: &Keys, r: &mut Rng, stats: &mut BTreeMap<String, u64>, slow: boo
         ops: vec![Op::OSpend(10_000), Op::OChange(5_000)],
         rule: Rule::Lin([0, 0, 0, 0, 0, 777, 999]),
         route: Route::Deferred,
+        coinbase: false,
     };
     run_with_balancing_v(d, k, r, stats, false, true);
     if slow {
@@ -1665,8 +1908,10 @@ fn witnesses(k: &Keys, r: &mut Rng, stats: &mut BTreeMap<String, u64>, slow: boo
 fn lattice_p2sh(k: &Keys, r: &mut Rng, stats: &mut BTreeMap<String, u64>) {
     let h = u32::from(Network::MainNetwork.activation_height(NetworkUpgrade::Nu6).unwrap());
     let mut c = 0u32;
-    for (m, n) in [(1u8, 1u8), (1, 2), (2, 2), (2, 3), (3, 3)] {
-        for keys in [vec![4u8, 5, 6], vec![6, 5, 4], vec![5, 6, 4], vec![4, 6], vec![6, 4], vec![5], vec![]] {
+    for (m, n) in [(1u8, 1u8), (1, 2), (2, 2), (2, 3), (3, 3), (3, 5), (2, 7), (8, 8), (1, 15), (15, 15)] {
+        let all: Vec<u8> = (4..19).collect();
+        let rev: Vec<u8> = all.iter().rev().copied().collect();
+        for keys in [all.clone(), rev, vec![5u8, 6, 4, 8, 7, 11, 10, 9], vec![4, 6], vec![6, 4], vec![5], vec![]] {
             for route in [Route::Build, Route::Mock, Route::Pczt] {
                 c += 1;
                 let rule = if route == Route::Mock || c % 2 == 0 { Rule::Zip317 } else { Rule::Lin([1000, 3, 1, 0, 0, 0, 0]) };
@@ -1687,6 +1932,7 @@ fn lattice_p2sh(k: &Keys, r: &mut Rng, stats: &mut BTreeMap<String, u64>) {
                     ops,
                     rule,
                     route,
+                    coinbase: false,
                 };
                 run_with_balancing_v(req, k, r, stats, false, false);
             }
@@ -1727,6 +1973,7 @@ fn lattice_deferred(k: &Keys, r: &mut Rng, stats: &mut BTreeMap<String, u64>) {
                         ops,
                         rule: if c % 3 == 0 { Rule::Lin([0, 0, 0, 0, 0, 777, 999]) } else { Rule::Zip317 },
                         route: Route::Deferred,
+                        coinbase: false,
                     };
                     run_with_balancing_v(req, k, r, stats, false, c % 2 == 0);
                 }
@@ -1747,6 +1994,7 @@ fn lattice_deferred(k: &Keys, r: &mut Rng, stats: &mut BTreeMap<String, u64>) {
             ops: vec![Op::IOut(1)],
             rule: Rule::Zip317,
             route: Route::Deferred,
+            coinbase: false,
         };
         emit(&req, k, r, stats);
     }
@@ -1770,8 +2018,55 @@ fn lattice_deferred(k: &Keys, r: &mut Rng, stats: &mut BTreeMap<String, u64>) {
             ops,
             rule: Rule::Zip317,
             route: Route::Deferred,
+            coinbase: false,
         };
         run_with_balancing_v(req, k, r, stats, false, true);
+    }
+}
+
+/// Coinbase configuration: heights in every branch, outputs only / with a forbidden spend or
+/// input / with an overridden expiry / with a proposed version.
+fn lattice_coinbase(k: &Keys, r: &mut Rng, stats: &mut BTreeMap<String, u64>) {
+    for net in [Network::MainNetwork, Network::TestNetwork] {
+        let hs: Vec<u32> = heights(net).into_iter().enumerate().filter(|(i, _)| i % 3 != 0 || *i >= 24).map(|(_, h)| h).collect();
+        for (hi, h) in hs.into_iter().enumerate() {
+            let pats: Vec<Vec<Op>> = vec![
+                vec![Op::TOut(625_000_000, false)],
+                vec![Op::TOut(500_000_000, false), Op::SOut(125_000_000), Op::TOut(1, true)],
+                vec![Op::SOut(5), Op::SOut(7), Op::SOut(MAX_MONEY)],
+                vec![],
+                vec![Op::TOut(5, false), Op::TIn(5)],
+                vec![Op::TOut(5, false), Op::SSpend(5)],
+                vec![Op::OSpend(5)],
+                vec![Op::ISpend(5, true)],
+                vec![Op::TOut(5, false), Op::Expiry(h + 1)],
+                vec![Op::TOut(5, false), Op::Expiry(0), Op::Expiry(h)],
+                vec![Op::TOut(5, false), Op::Propose(Ver::V4)],
+                vec![Op::SOut(5), Op::Propose(Ver::V5)],
+                vec![Op::TIn(9), Op::OOut(5), Op::IOut(6), Op::OChange(7)],
+                vec![Op::TNull(10), Op::TOut(7, false)],
+            ];
+            for (pi, ops) in pats.into_iter().enumerate() {
+                if (hi + pi) % 2 == 1 && pi > 3 {
+                    continue;
+                }
+                let req = Req {
+                    net,
+                    height: h,
+                    sap: false,
+                    orc: false,
+                    iw: false,
+                    opad: (false, None),
+                    ipad: (false, None),
+                    keys: vec![],
+                    ops,
+                    rule: Rule::Zip317,
+                    route: if (hi + pi) % 3 == 0 { Route::Mock } else { Route::Build },
+                    coinbase: true,
+                };
+                emit(&req, k, r, stats);
+            }
+        }
     }
 }
 
@@ -1792,6 +2087,7 @@ fn main() {
     lattice_padding(&k, &mut r, &mut stats);
     lattice_p2sh(&k, &mut r, &mut stats);
     lattice_deferred(&k, &mut r, &mut stats);
+    lattice_coinbase(&k, &mut r, &mut stats);
     let n = a.budget(600, 8000);
     let mut proofs = if a.thorough() && !a.search { 3 } else { 0 };
     for _ in 0..n {
